@@ -242,7 +242,7 @@ def judge(case):
         try:
             results = list(get_extractor("x." + ext)(io.BytesIO(data), path))
         except ExtractionError as e:
-            if not case.get("mutation"):
+            if not case.get("mutation") and not case.get("may_reject"):
                 cause = getattr(e, "__cause__", None)
                 return [("valid-document-rejected", f"a well-formed generated document was rejected: {type(e).__name__}: {e} (cause: {type(cause).__name__}: {cause})")], "rejected", 0
             return [], "rejected", 0
@@ -419,10 +419,39 @@ def rtf_units_shard(ctx: Ctx):
     return part
 
 
+def _legacy_units(fmt: str, parts: dict) -> bytes:
+    """Legacy binary documents whose UTF-16 text fields hold arbitrary code units (lone halves, reversed pairs, non-characters)."""
+    from vf.gen import biff8, docbin, pptbin
+    t = {k: "".join(chr(u) for u in v) for k, v in parts.items()}
+    if fmt == "ppt":
+        return pptbin.write_ppt([{"title": "T" + t["title"], "body": ["body " + t["body"] + " end"], "other": ["o" + t["cell"]], "notes": ["n" + t["author"]]}, {"title": None, "body": ["second"], "other": [], "notes": []}])
+    if fmt == "xls":
+        return biff8.write_xls([{"name": "S1", "rows": [["colA", "colB"], ["c" + t["cell"], "b" + t["body"]], ["t" + t["title"], 4]]}])
+    from vf.gen.legacy import FILLER
+    return docbin.write_doc([FILLER, "body " + t["body"] + " end", "T" + t["title"], "c" + t["cell"], FILLER])
+
+
+def legacy_units_shard(ctx: Ctx):
+    """The text fields of .ppt / .xls / .doc are UTF-16 code units too: whatever they hold, every accessor returns encodable text and nothing raises."""
+    part = Partial()
+    seq = st.lists(st.sampled_from(UNITS), max_size=5)
+    strat = st.tuples(st.sampled_from(["ppt", "xls", "doc"]), st.fixed_dictionaries({"title": seq, "author": seq, "body": seq, "cell": seq}))
+
+    def ev(t):
+        fmt, parts = t
+        # ill-formed UTF-16 may be refused as a whole (an ExtractionError); what is returned must honour the interface
+        case = {"kind": "bytes", "format": fmt, "ext": fmt, "bytes_b64": base64.b64encode(_legacy_units(fmt, parts)).decode(), "path": "none", "may_reject": True}
+        return evaluate(ctx, case, part)
+
+    hyp_search(ctx, "c04-legacy-units", strat, ev, ctx.n(300, 10000), part, model_shrink=False)
+    return part
+
+
 def run(ctx: Ctx) -> Partial:
     part = Partial()
     fixtures(ctx, part)
     part.merge(shard_map(ctx, "vf.props.c04", "rtf_units_shard", 1))
+    part.merge(shard_map(ctx, "vf.props.c04", "legacy_units_shard", 2))
     t = _targets()
     part.merge(shard_map(ctx, "vf.props.c04", "shard", len(t), extra_per_shard=[list(x) for x in t]))
     return part
